@@ -63,7 +63,9 @@ def gen_custom(rng, dflt):
         if isinstance(v, str) and not _isnum(v):
             continue
         base = float(v)
-        new = base * rng.choice([0.5, 0.9, 1.0, 1.1, 2.0]) if base != 0 else rng.choice([0.0, 0.5, -1.0])
+        new = base * rng.choice([0.5, 0.9, 1.0, 1.1, 2.0, 0.0]) if base != 0 else rng.choice([0.0, 0.5, -1.0])
+        if new == 0 and p[-1] in ("M_s", "rho_l", "cp_w", "cp_s", "height", "length", "width"):
+            new = base
         if p == ("solution", "solid_fraction"):
             new = rng.choice([0.01, 0.05, 0.1, 0.3])
         set_path(custom, p, spell(rng, new))
@@ -170,7 +172,7 @@ def check(rep, tier):
     rep.trusted = ["Coq 8.16.1 kernel + vm_compute", "harness/translator.py: " + "; ".join(translator.LOG), "PyYAML parsing and python float()", "leaf values are opaque in the layering model"]
     from ethz_snow import constants as C
     dflt = default_cfg()
-    lcases, ccases, meta = [], [], []
+    lcases, ccases, meta, lmeta = [], [], [], []
     bad_later = later_rejections()
     if bad_later:
         rep.violation("rejected-later", "an enumeration is (also) rejected after loading: %s" % bad_later, dict(sites=bad_later))
@@ -205,6 +207,7 @@ def check(rep, tier):
         ids = Ids()
         lcases.append("(%s, %s, %s, %s)" % (coq_tree(dflt, ids), coq_tree(reparsed, ids), "None" if merged is None else "(Some %s)" % coq_tree(merged, ids),
                                           coq_list('"%s"' % k for k in unk)))
+        lmeta.append(custom)
         if merged is None:
             continue
         # ---- derived constants ----------------------------------------------------------------------------
@@ -280,7 +283,7 @@ def check(rep, tier):
         if rc != 0 or len(blocks) != 2:
             rep.violation("correspondence-run", "Coq evaluation failed: " + out[-500:], dict(log=out[-2000:]), found_input=False); continue
         for b in common.parse_nat_list(blocks[0]):
-            rep.violation("model-vs-impl layering", "correspondence model/Layer.v <-> _nestedDictUpdate no longer checks (case %d of chunk %d)" % (b, ci), dict(correspondence="model/Layer.v"), found_input=False)
+            rep.violation("model-vs-impl layering", "correspondence model/Layer.v <-> _nestedDictUpdate no longer checks for custom file %s" % lmeta[ci + b], dict(correspondence="model/Layer.v", custom=lmeta[ci + b]), found_input=False)
         for b in common.parse_nat_list(blocks[1]):
             rep.violation("model-vs-impl constants", "generated constants / rejection / exported keys differ from calculateDerived for custom file %s" % meta[ci + b],
                           dict(correspondence="gen/GenConstants.v (binary64) vs calculateDerived", custom=meta[ci + b]), found_input=False)
